@@ -64,6 +64,7 @@ void World::build_common()
 		ca.push_back(c.gets("domain", domain));
 		ci.task = S.add_proc("c" + std::to_string(i), ci.host, CLIENT_MAINS[i], ca, (uint64_t)c.geti("start_us", 100000 + 50000 * i));
 		ci.task->client_index = (int)i;
+		ci.late = c.getb("late", false);
 		clients.push_back(ci);
 		uint64_t up = (uint64_t)c.geti("lat_up_us", 1000), dn = (uint64_t)c.geti("lat_dn_us", 1000);
 		S.latency[{ci.host, srv_host}] = up;
@@ -92,6 +93,7 @@ void World::build_common()
 			Fate ft;
 			ft.drop = e.getb("drop"); ft.dup = (int)e.geti("dup"); ft.extra_delay = (uint64_t)e.geti("delay_us");
 			ft.dup_delay = (uint64_t)e.geti("dup_delay_us"); ft.trunc = (int)e.geti("trunc", -1); ft.flipbit = (int)e.geti("flip", -1);
+			if (e.has("replace_hex")) { ft.has_replace = true; ft.replace = unhex(e.gets("replace_hex")); }
 			S.fates[{st, (uint64_t)e.geti("n")}] = ft;
 		}
 	}
@@ -143,6 +145,9 @@ void World::do_op(const J &op)
 		S.tracef("OFFER %s ser=%lld len=%zu", at.c_str(), (long long)op.geti("ser"), p.size());
 		S.offer_tun(t, p);
 		S.count("op.tun");
+	} else if (k == "tunhex") {
+		Task *t = S.task_by_name(op.gets("at", "srv"));
+		if (t && t->state != T_EXITED) { S.offer_tun(t, unhex(op.gets("hex"))); S.count("op.tunhex"); }
 	} else if (k == "sigint") {
 		S.signal_task(S.task_by_name(op.gets("task")), 2);
 	} else if (k == "stall") {
@@ -159,6 +164,11 @@ void World::do_op(const J &op)
 		bool v6 = op.getb("v6");
 		if (th) dst = v6 ? th->ip6 : th->ip4;
 		dst.port = (uint16_t)op.geti("dport", 53);
+		if (op.gets("dport") == "auto" || op.geti("dport", 53) == 0) {
+			// the (single) UDP socket of the target task
+			Task *tt = S.task_by_name(to);
+			for (auto &sp : S.socks) if (sp.second->owner == tt && sp.second->bound) dst.port = sp.second->local.port;
+		}
 		Addr src = v6 ? h->ip6 : h->ip4;
 		if (op.has("spoof_ip")) src = Addr::v4(op.gets("spoof_ip").c_str(), 0);
 		src.port = (uint16_t)op.geti("sport", 4000);
@@ -213,21 +223,25 @@ J World::result()
 	for (auto &h : result_hooks) h(r);
 	// the explicit fate list makes this run replayable without the generator
 	J fl = J::arr();
-	for (auto &f : S.fired) {
-		J o = J::obj();
-		auto hs = S.stream_hosts[f.first.first];
-		if (hs.first >= 0) o.set("from", S.hosts[hs.first].name); else o.set("from_id", hs.first);
-		if (hs.second >= 0) o.set("to", S.hosts[hs.second].name); else o.set("to_id", hs.second);
-		o.set("n", (long long)f.first.second);
-		if (f.second.drop) o.set("drop", true);
-		if (f.second.dup) { o.set("dup", f.second.dup); o.set("dup_delay_us", (long long)f.second.dup_delay); }
-		if (f.second.extra_delay) o.set("delay_us", (long long)f.second.extra_delay);
-		if (f.second.trunc >= 0) o.set("trunc", f.second.trunc);
-		if (f.second.flipbit >= 0) o.set("flip", f.second.flipbit);
-		fl.push(o);
-	}
+	for (auto &f : S.fired) fl.push(fate_json(f.first, f.second));
 	r.set("fired", fl);
 	return r;
+}
+
+J World::fate_json(const std::pair<int, uint64_t> &key, const Fate &f)
+{
+	J o = J::obj();
+	auto hs = S.stream_hosts[key.first];
+	if (hs.first >= 0) o.set("from", S.hosts[hs.first].name); else o.set("from_id", hs.first);
+	if (hs.second >= 0) o.set("to", S.hosts[hs.second].name); else o.set("to_id", hs.second);
+	o.set("n", (long long)key.second);
+	if (f.drop) o.set("drop", true);
+	if (f.dup) { o.set("dup", f.dup); o.set("dup_delay_us", (long long)f.dup_delay); }
+	if (f.extra_delay) o.set("delay_us", (long long)f.extra_delay);
+	if (f.trunc >= 0) o.set("trunc", f.trunc);
+	if (f.flipbit >= 0) o.set("flip", f.flipbit);
+	if (f.has_replace) o.set("replace_hex", hexs(f.replace));
+	return o;
 }
 
 // ------------------------------------------------------------------ world tracker
@@ -254,7 +268,7 @@ struct WorldTracker : Monitor {
 		c->in_tunnel = true; c->t_tunnel = w->S.now;
 		w->S.tracef("TUNNEL-PHASE %s", t.name.c_str());
 		bool all = true;
-		for (auto &x : w->clients) if (!x.in_tunnel) all = false;
+		for (auto &x : w->clients) if (!x.in_tunnel && !x.late) all = false;
 		if (all && !w->all_in_tunnel) {
 			w->all_in_tunnel = true; w->T0 = w->S.now;
 			const J &f = w->cfg["faults"];
